@@ -6207,10 +6207,17 @@ class CodegenCtx:
             else:
                 transition_body.add(f"++start;");
         # Generate actions
+        leaves_for_elsewhere = False
         for action in transition.actions:
             transition_body.add()
             transition_body.add(f"// action {action!r} ")
             transition_body += self._generate_action_implementation(action, is_end=from_end, transition=transition)
+            if action.get_target_override_mode() in [ActionOverrideMode.MAY_GOTO_TARGET, ActionOverrideMode.ALWAYS_GOTO_OTHER]:
+                leaves_for_elsewhere = True
+            if action.get_target_override_mode() in [ActionOverrideMode.ALWAYS_GOTO_OTHER, ActionOverrideMode.ALWAYS_GOTO_UNDEFINED]:
+                # nothing gets past this one: what stands behind it (the statements after a finish or break) is never performed,
+                # and the states only those statements refer to are not part of the machine
+                break
         if any(
             any(
                 ProgramData.lookup(subact, DTAG.ACTION_MAY_SKIP, recurse_upwards=False, default=False) for subact in action.all_subactions()
@@ -6220,7 +6227,8 @@ class CodegenCtx:
             transition_body.add(f"{self._transition_skip_action_label(transition)}:")
         # Check if we should fallthrough and generate a goto
         if transition.is_fallthrough:
-            if transition.target in self.dfa.states:
+            # (where an action in front of a finish may leave for another state, or one always does, the transition's own target need not exist)
+            if transition.target in self.dfa.states or leaves_for_elsewhere:
                 transition_body.add(f"// fallthrough")
                 if self._transition_will_directly_jump(transition, excl_fall=True):
                     transition_body.add(f"goto fall_{self.dfa.states.index(transition.target)};")
@@ -6234,7 +6242,7 @@ class CodegenCtx:
             transition_body.add(f"return {self.program_name.upper()}_DONE;")
         # Normally, though, just generate a jump to the next jpto
         elif not from_end:
-            if transition.target in self.dfa.states:
+            if transition.target in self.dfa.states or leaves_for_elsewhere:
                 if ProgramData.do(ProgramFlag.INDIRECT_START_PTR):
                     transition_body.add(f"if ({'++' if not needs_early_advance else ''}(*start) == end) return {self.program_name.upper()}_OK;");
                     transition_body.add("inval = **start;")
